@@ -31,6 +31,14 @@ pub fn current_property() -> String {
   GLOBAL_PROPERTY.get().cloned().unwrap_or_default()
 }
 
+/// A panic inside the library during a legal operation is not the behaviour any of the
+/// behavioural properties allows for that operation, so it is reported under the property
+/// being checked when that property covers the engine's operations, else under `default`.
+pub fn panic_prop(default: &'static str, covered: &[&'static str]) -> &'static str {
+  let cur = current_property();
+  covered.iter().copied().find(|c| *c == cur).unwrap_or(default)
+}
+
 pub fn panic_msg(p: &Box<dyn std::any::Any + Send>) -> String {
   if let Some(s) = p.downcast_ref::<&str>() {
     s.to_string()
@@ -64,6 +72,11 @@ fn run_replay(r: &Replay) -> Option<Failure> {
     "E1-topic" => {
       let s: topic::Scenario = vcore::from_value(&r.scenario);
       topic::execute(&s).err()
+    }
+    "E4-topic" => {
+      // real threads: the replay is statistical (repeated)
+      let s: topic::StressScenario = vcore::from_value(&r.scenario);
+      (0..5).find_map(|_| topic::execute_stress(&s).err())
     }
     "E1-broadcast" => {
       let s: bcast::Scenario = vcore::from_value(&r.scenario);
@@ -172,7 +185,12 @@ fn main() {
             check_e1(&mut check, adapt::P2P.to_vec());
           }
           if std::env::var("VERIF_ONLY").map(|v| v != "E1").unwrap_or(true) {
-            check_e2(&mut check, adapt::P2P.to_vec());
+            let mut fl = adapt::P2P.to_vec();
+            if prop == "C03" {
+              // the broadcast ring is a bounded channel too (C03 anchors spmc/ring_buffer.rs)
+              fl.push(adapt::Flavour::Broadcast);
+            }
+            check_e2(&mut check, fl);
           }
           if (prop == "C04" || prop == "C09") && std::env::var("VERIF_ONLY").is_err() {
             check_bcast(&mut check, 3);
@@ -191,6 +209,13 @@ fn main() {
         }
         "C08" => {
           check_topic(&mut check, 1);
+          {
+            let ctx = check.ctx.clone();
+            let cases = ctx.tier.pick(48u64, 2_000u64);
+            vcore::set_current_engine("E4-topic");
+            let out = vcore::drive(&ctx, &check.findings, 6, cases, topic::stress_strategy, |s| topic::execute_stress(s));
+            check.absorb("E4-topic", out);
+          }
           ("proptest-generated histories over 3 topics, up to 3 sender handles and 3 receivers (subscribe/unsubscribe/clone/close/drop/convert, sync and async forms) against a model of subscription sets and bounded drop-newest mailboxes; non-trivial = a subscription changed between two publishes, or a mailbox overflowed, or a sender clone went away while another stayed; distinct = hash of the scenario".into(), vec!["sequential histories (publishing never overlaps a subscription change)".into()])
         }
         "C07" => {
